@@ -341,7 +341,19 @@ fn boxes_of_every_constructor(rng: &mut Rng) {
         v.require(ok, "circle_aabb.every_circle_has_the_box_centre_plus_minus_radius", || format!("{how}: centre {:?} r {} box {:?} {:?}", k.center, k.r(), b.mins, b.maxs));
         // arcs made from it
         let (b0, sw) = (rng.range(-7.0, 7.0), rng.range(0.05, 2.0 * PI) * if rng.chance(0.5) { 1.0 } else { -1.0 });
-        let arcs: Vec<(Arc2, &'static str)> = vec![(k.to_arc(), "to_arc"), (k.to_partial_arc(b0, sw), "to_partial_arc")];
+        let start = k.point_at_angle(b0);
+        // the point on the circle at an angle, and a point projected to the perimeter, are ON the circle in the stated direction
+        v.require((k.distance_to(&start)).abs() <= 1e-9 * sc && (k.angle_of_point(&start) - b0).rem_euclid(2.0 * PI).min((b0 - k.angle_of_point(&start)).rem_euclid(2.0 * PI)) <= 1e-9, "circle.point_at_angle_is_on_the_circle_at_that_angle", || format!("{how}: angle {b0} -> {start:?}"));
+        let off = Point2::new(k.center.x + rng.range(-2.0, 2.0) * k.r(), k.center.y + rng.range(-2.0, 2.0) * k.r());
+        match k.project_point_to_perimeter(&off) {
+            None => v.require((off - k.center).norm() < 1e-9, "circle.projection_to_perimeter_exists_off_centre", || format!("{off:?}")),
+            Some(q) => {
+                let (u, w) = ((q - k.center).normalize(), (off - k.center).normalize());
+                v.require(k.distance_to(&q).abs() <= 1e-9 * sc && (u - w).norm() <= 1e-9, "circle.projection_to_perimeter_is_on_the_circle_towards_the_point", || format!("{how}: {off:?} -> {q:?}"));
+            }
+        }
+        v.require(k.project_point_to_perimeter(&k.center).is_none(), "circle.centre_has_no_projection_to_perimeter", || format!("{how}"));
+        let arcs: Vec<(Arc2, &'static str)> = vec![(k.to_arc(), "to_arc"), (k.to_partial_arc(b0, sw), "to_partial_arc"), (Arc2::circle_point_angle(k.center, k.r(), start, sw), "circle_point_angle")];
         for (arc, ahow) in &arcs {
             let bb = arc.aabb();
             let m = 600;
